@@ -4,6 +4,9 @@ from .gen import Gen, or_sites, rng_for, signature, to_json
 from .mm import RAW
 
 
+LONG_VARIANTS = 3
+
+
 class TGen(Gen):
     """Gen that accepts a ("tree", subtree) step: splice a pre-built subtree."""
 
@@ -65,6 +68,10 @@ def alt_variants(mm, t, coords):
             subs = [s for _, s in ev]
             out.append(("hetero-fwd", ("arr", subs)))
             out.append(("hetero-rev", ("arr", subs[::-1])))
+            # LONG arrays whose deciding element comes late: 130 x the first shape, then another one
+            # (hooks that sniff a prefix, quadratic shortcuts, truncation)
+            for lab, sub in ev[1:LONG_VARIANTS + 1]:
+                out.append(("long130+" + lab, ("arr", [subs[0]] * 130 + [sub])))
         return out
     if k == "or":
         for i, it in enumerate(rt["items"]):
@@ -200,7 +207,8 @@ def recursive_structs(mm):
 
 def big_cases(mm, root, seed):
     """LARGE / DEEP inputs: long arrays and maps at the first level, recursion 40 levels deep."""
-    yield ("wide", TGen(mm, rng_for(seed, root.label, "wide"), maxdepth=1, p_opt=1.0, arr_lens=(130,)).gen(root.t))
+    # arrays / maps directly under the root (depth 1) get 130 elements; deeper ones stay empty
+    yield ("wide", TGen(mm, rng_for(seed, root.label, "wide"), maxdepth=2, p_opt=1.0, arr_lens=(130,)).gen(root.t))
     if root.kind == "S" and root.name in recursive_structs(mm):
         yield ("deep40", DeepGen(mm, rng_for(seed, root.label, "deep"), 40).gen(root.t))
 
